@@ -3,6 +3,9 @@
  * reported.  An object is freed exactly when its last holder goes away (freed objects are printed as x and
  * never touched again: the sanitizers watch for use-after-free, double free and leaks at exit).
  *   refs run <ctx->ring map> <ops> => <snapshot;snapshot;...>
+ * op >P:c:c2 : an external polynomial that holds context c is the OUTPUT of an operation whose inputs live in context c2
+ * (lp_polynomial_set_context / lp_polynomial_swap move the reference); the result must equal the one computed into a
+ * fresh output and carry context c2 - otherwise the snapshot is replaced by !<operation>.
  */
 #include "hpoly.h"
 #include <polynomial_vector.h>
@@ -13,9 +16,68 @@
 #define MAXH 64
 typedef struct { char kind; int target; void* obj; } holder;
 
+static lp_variable_t mx, my;
+static lp_polynomial_t* mem_poly(const lp_polynomial_context_t* ctx, int want_x) {
+  lp_polynomial_t* p = lp_polynomial_new(ctx);
+  lp_integer_t c; lp_integer_construct(&c);
+  int nt = 1 + (int)rnd(4);
+  for (int t = 0; t < nt; ++t) {
+    lp_integer_assign_int(lp_Z, &c, rnd_in(-6, 6)); if (!lp_integer_sgn(lp_Z, &c)) lp_integer_assign_int(lp_Z, &c, 1);
+    lp_polynomial_t* m = lp_polynomial_alloc(); lp_polynomial_construct_simple(m, ctx, &c, mx, (want_x && t == 0) ? 1 + rnd(2) : rnd(3));
+    if (chance(50)) { lp_integer_t one; lp_integer_construct_from_int(lp_Z, &one, 1); lp_polynomial_t* s = lp_polynomial_alloc();
+      lp_polynomial_construct_simple(s, ctx, &one, my, 1 + rnd(2)); lp_polynomial_mul(m, m, s); lp_polynomial_delete(s); lp_integer_destruct(&one); }
+    lp_polynomial_add(p, p, m); lp_polynomial_delete(m);
+  }
+  lp_integer_destruct(&c);
+  return p;
+}
+#define NMOVE 21
+static const char* MOVE_NAME[NMOVE] = { "add", "sub", "mul", "neg", "mul_integer", "pow", "assign", "derivative", "shl", "reductum",
+  "get_coefficient", "div", "rem", "prem", "gcd", "lcm", "cont", "pp", "resultant", "psc", "reduce_degree_Zp" };
+/* the operation k with inputs A, B (context of A) written into O */
+static void move_apply(int k, lp_polynomial_t* O, const lp_polynomial_t* A, const lp_polynomial_t* B, const lp_polynomial_t* AB, unsigned n) {
+  lp_integer_t c; lp_integer_construct_from_int(lp_Z, &c, 3);
+  switch (k) {
+  case 0: lp_polynomial_add(O, A, B); break;
+  case 1: lp_polynomial_sub(O, A, B); break;
+  case 2: lp_polynomial_mul(O, A, B); break;
+  case 3: lp_polynomial_neg(O, A); break;
+  case 4: lp_polynomial_mul_integer(O, A, &c); break;
+  case 5: lp_polynomial_pow(O, A, n); break;
+  case 6: lp_polynomial_assign(O, A); break;
+  case 7: lp_polynomial_derivative(O, A); break;
+  case 8: lp_polynomial_shl(O, A, n); break;
+  case 9: lp_polynomial_reductum(O, A); break;
+  case 10: lp_polynomial_get_coefficient(O, A, n); break;
+  case 11: lp_polynomial_div(O, AB, B); break;
+  case 12: lp_polynomial_rem(O, AB, B); break;
+  case 13: lp_polynomial_prem(O, A, B); break;
+  case 14: lp_polynomial_gcd(O, AB, B); break;
+  case 15: lp_polynomial_lcm(O, A, B); break;
+  case 16: lp_polynomial_cont(O, A); break;
+  case 17: lp_polynomial_pp(O, A); break;
+  case 18: lp_polynomial_resultant(O, A, B); break;
+  case 19: { /* the last principal subresultant coefficient goes to O, the others to fresh objects */
+    size_t da = lp_polynomial_degree(A), db = lp_polynomial_degree(B);
+    const lp_polynomial_t* H = da >= db ? A : B; const lp_polynomial_t* L = da >= db ? B : A;
+    size_t sz = lp_polynomial_degree(L) + 1;
+    lp_polynomial_t** out = (lp_polynomial_t**)malloc(sz * sizeof(lp_polynomial_t*));
+    for (size_t i = 0; i < sz; ++i) out[i] = i == 0 ? O : lp_polynomial_new(lp_polynomial_get_context(A));
+    lp_polynomial_psc(out, H, L);
+    for (size_t i = 1; i < sz; ++i) lp_polynomial_delete(out[i]);
+    free(out);
+    break; }
+  default: lp_polynomial_reduce_degree_Zp(O, A); break;
+  }
+  lp_integer_destruct(&c);
+}
+
+
 static void mem_case(void) {
   lp_variable_db_t* db = lp_variable_db_new(); lp_variable_order_t* ord = lp_variable_order_new();
-  lp_variable_t x = lp_variable_db_new_variable(db, "x"); lp_variable_order_push(ord, x);
+  lp_variable_t x = lp_variable_db_new_variable(db, "x"); lp_variable_t y = lp_variable_db_new_variable(db, "y");
+  lp_variable_order_push(ord, y); lp_variable_order_push(ord, x); mx = x; my = y;
+  int broken = 0;
   static const char* mods[NR] = { "7", "13", "101" };
   lp_int_ring_t* ring[NR]; int ring_live[NR]; long ring_handles[NR];
   lp_polynomial_context_t* ctx[NC]; int ctx_ring[NC]; long ctx_handles[NC]; int ctx_created[NC];
@@ -49,7 +111,7 @@ static void mem_case(void) {
       int rr = ctx_ring[c];
       ctx_handles[c]--; ctx_expect[c]--; ring_expect[rr]--; snprintf(opbuf, sizeof opbuf, "-C:%d", c);
       lp_polynomial_context_detach(ctx[c]); if (!ring_expect[rr]) ring_live[rr] = 0;
-    } else if (w < 70 && nh < MAXH) { /* new holder */
+    } else if (w < 66 && nh < MAXH) { /* new holder */
       unsigned t = rnd(4);
       if (t == 0) { if (!ctx_expect[c]) continue; lp_polynomial_t* p = lp_polynomial_new(ctx[c]); lp_polynomial_set_external(p);
         hs[nh].kind = 'P'; hs[nh].target = c; hs[nh].obj = p; nh++; ctx_expect[c]++; ring_expect[ctx_ring[c]]++; snprintf(opbuf, sizeof opbuf, "+P:%d", c); }
@@ -59,6 +121,35 @@ static void mem_case(void) {
         hs[nh].kind = 'U'; hs[nh].target = r; hs[nh].obj = u; nh++; ring_expect[r]++; snprintf(opbuf, sizeof opbuf, "+U:%d", r); }
       else { if (!ring_live[r]) continue; lp_feasibility_set_int_t* s = chance(50) ? lp_feasibility_set_int_new_full(ring[r]) : lp_feasibility_set_int_new_empty(ring[r]);
         hs[nh].kind = 'F'; hs[nh].target = r; hs[nh].obj = s; nh++; ring_expect[r]++; snprintf(opbuf, sizeof opbuf, "+F:%d", r); }
+    } else if (w < 82) { /* an external polynomial becomes the output of an operation on (possibly) another context */
+      if (!nh) continue;
+      int i = (int)rnd(nh); if (hs[i].kind != 'P') continue;
+      int c0 = hs[i].target, c2 = c; if (!ctx_expect[c2]) continue;
+      lp_polynomial_t* P = (lp_polynomial_t*)hs[i].obj;
+      if (chance(60)) { /* give the output a non-trivial prior content (in its own context) */
+        lp_polynomial_t* t = mem_poly(ctx[c0], 0); lp_polynomial_add(P, P, t); lp_polynomial_delete(t); }
+      int k2 = (int)rnd(NMOVE); unsigned n = rnd(3);
+      lp_polynomial_t* A = mem_poly(ctx[c2], 1); lp_polynomial_t* B = mem_poly(ctx[c2], 1);
+      if (lp_polynomial_is_zero(A) || lp_polynomial_is_zero(B) || lp_polynomial_is_constant(A) || lp_polynomial_is_constant(B) ||
+          lp_polynomial_top_variable(A) != x || lp_polynomial_top_variable(B) != x) k2 = (int)rnd(3);
+      else if (lp_polynomial_degree(A) < lp_polynomial_degree(B)) { lp_polynomial_t* t = A; A = B; B = t; }
+      lp_polynomial_t* AB = lp_polynomial_new(ctx[c2]); lp_polynomial_mul(AB, A, B);
+      lp_polynomial_t* F = lp_polynomial_new(ctx[c2]);
+      NOTE("move %s c%d -> c%d", MOVE_NAME[k2], c0, c2);
+      move_apply(k2, F, A, B, AB, n);
+      move_apply(k2, P, A, B, AB, n);
+      int good = lp_polynomial_get_context(P) == ctx[c2] && lp_polynomial_eq(P, F);
+      lp_polynomial_delete(A); lp_polynomial_delete(B); lp_polynomial_delete(AB); lp_polynomial_delete(F);
+      snprintf(opbuf, sizeof opbuf, ">P:%d:%d", c0, c2);
+      if (!good) { /* report and stop the history: the bookkeeping below would no longer describe the library's state */
+        if (!first) sb_str(","); first = 0; sb_str(opbuf);
+        if (sl) snaps[sl++] = ';';
+        sl += (size_t)snprintf(snaps + sl, sizeof snaps - sl, "!%s", MOVE_NAME[k2]);
+        broken = 1; break;
+      }
+      hs[i].target = c2;
+      ctx_expect[c0]--; ring_expect[ctx_ring[c0]]--; ctx_expect[c2]++; ring_expect[ctx_ring[c2]]++;
+      if (!ring_expect[ctx_ring[c0]]) ring_live[ctx_ring[c0]] = 0;
     } else { if (!nh) continue;
       int i = (int)rnd(nh); holder h = hs[i]; hs[i] = hs[--nh];
       snprintf(opbuf, sizeof opbuf, "-%c:%d", h.kind, h.target);
@@ -79,6 +170,7 @@ static void mem_case(void) {
   }
   if (first) { sb_reset(); }
   else { sb_arrow(); sb_sp(); sb_str(snaps); sb_emit(); }
+  (void)broken;
   /* release everything that is still held */
   while (nh) { holder h = hs[--nh];
     if (h.kind == 'P') lp_polynomial_delete((lp_polynomial_t*)h.obj); else if (h.kind == 'V') lp_polynomial_vector_delete((lp_polynomial_vector_t*)h.obj);
